@@ -460,6 +460,54 @@ const (
 	stKinds
 )
 
+func init() { vReg("H_C05_partial", H_C05_partial) }
+
+// C05 with a write timeout configured: a response larger than what the client takes in
+// time is cut off by the deadline after part of it was sent.  From then on the stream is
+// torn, so no later Write on that connection may report success (the client could not
+// delimit its frame).
+func H_C05_partial() {
+	v := vNewSrv(WithWriteTimeout(time.Second))
+	var mu sync.Mutex
+	var results []bool // success of each Write, in the order they were made
+	big := make([]byte, 20000)
+	for i := range big {
+		big[i] = byte('a' + i%26)
+	}
+	vAssume(v.mux.Delete(func(w *ResponseWriter, r *Request) {
+		diag := "ok"
+		if r.message.GetID() == 1 {
+			diag = string(big)
+		}
+		err := w.Write(r.NewResponse(WithResponseCode(ResultSuccess), WithDiagnosticMessage(diag)))
+		mu.Lock()
+		results = append(results, err == nil)
+		mu.Unlock()
+	}) == nil)
+	nc := vNetConn("c1")
+	vConnSet(nc, "partialWrites", true)
+	vConnFeed(nc, vWire(refEnvelope(1, refDeleteOp(), nil)))
+	vConnFeed(nc, vWire(refEnvelope(2, refDeleteOp(), nil)))
+	vConnFeedBlock(nc)
+	vEnvAccept(nc)
+	v.goRun()
+	vQuiesce()
+	mu.Lock()
+	failed := false
+	for _, ok := range results {
+		if failed {
+			vAssertE(!ok, "after a Write that failed in the middle of its frame no later Write on the connection succeeds")
+		}
+		if !ok {
+			failed = true
+		}
+	}
+	mu.Unlock()
+	v.goStop()
+	vQuiesce()
+	vReach("partial")
+}
+
 func init() { vReg("H_C11_startrace", H_C11_startrace) }
 
 // C11 / C12: Stop racing with Run's start-up (no connections): every spawn order plus one
